@@ -22,6 +22,7 @@ func checkC07(c *Check) {
 
 	checkC07HandlerOnly(c)
 	checkC07ImportErrors(c)
+	checkCapturedDiagnostics(c)
 	checkSilentEvaluation(c, c.Rule("R7.8", "a trial type check (EvaluateSilent) leaves the shared diagnostic state as it found it", 1))
 	_, isWrapper := handlerHelpers(c)
 	// ---------------- R7.2 flag writers ----------------
@@ -42,17 +43,70 @@ func checkC07(c *Check) {
 		})
 		r2.Decide(okw && w.Rhs != nil && L.Src(w.Rhs) == "true", q+"|errored write", w.Node.Pos(), "set to true only for LEVEL_ERROR inside the handler wrapper", "parser.errored written outside `if err.Level == LEVEL_ERROR { errored = true }` of the handler wrapper: warnings fail the compilation or errors do not")
 	}
+	// what each writer may store, by kind of value (not by the text of the expression, so local and receiver names are free):
+	// a constant, the parser's errored flag, the flag itself or-ed with something (monotone), or a value saved from the flag
+	// earlier in the same function (the restore of a trial evaluation, whose soundness is R7.8's business)
 	faultyWriters := map[string]string{
-		"parser.(*parser).parse": "p.errored", "parser.newParser": "false", "parser.Parse": "module.Ast.Faulty || scanErrored",
+		"parser.(*parser).parse": "the parser's errored flag", "parser.newParser": "false", "parser.Parse": "the flag itself or-ed with something",
 		"resolver.(*Resolver).err": "true", "resolver.(*Resolver).VisitBadDecl": "true", "resolver.(*Resolver).VisitBadExpr": "true", "resolver.(*Resolver).VisitBadStmt": "true",
-		"typechecker.(*Typechecker).err": "true", "typechecker.(*Typechecker).EvaluateSilent": "faulty",
+		"typechecker.(*Typechecker).err": "true", "typechecker.(*Typechecker).EvaluateSilent": "a value saved from the flag",
+	}
+	readsFaulty := func(info *types.Info, e ast.Expr) bool {
+		found := false
+		ast.Inspect(e, func(n ast.Node) bool {
+			if sel, ok := n.(*ast.SelectorExpr); ok && isField(fieldOf(info, sel), "ast", "Ast", "Faulty") {
+				found = true
+			}
+			return true
+		})
+		return found
+	}
+	valueKind := func(w fieldWrite) string {
+		info := w.Fn.Pkg.TypesInfo
+		if w.Rhs == nil {
+			return "?"
+		}
+		rhs := ast.Unparen(w.Rhs)
+		if tv := info.Types[rhs]; tv.Value != nil {
+			return tv.Value.String()
+		}
+		if isField(fieldOf(info, rhs), "parser", "parser", "errored") {
+			return "the parser's errored flag"
+		}
+		if be, ok := rhs.(*ast.BinaryExpr); ok && be.Op == token.LOR && (readsFaulty(info, be.X) || readsFaulty(info, be.Y)) {
+			return "the flag itself or-ed with something"
+		}
+		if id, ok := rhs.(*ast.Ident); ok {
+			if v, isVar := info.Uses[id].(*types.Var); isVar && !v.IsField() {
+				if d := singleDef(info, w.Fn.Decl.Body, v); d != nil && readsFaulty(info, d) {
+					return "a value saved from the flag"
+				}
+				// saved in a tuple definition: a, b, c := x, flag, y
+				saved := false
+				ast.Inspect(w.Fn.Decl.Body, func(n ast.Node) bool {
+					if as, ok := n.(*ast.AssignStmt); ok && as.Tok == token.DEFINE && len(as.Lhs) == len(as.Rhs) {
+						for i, l := range as.Lhs {
+							if lid, ok := l.(*ast.Ident); ok && info.Defs[lid] == v && readsFaulty(info, as.Rhs[i]) {
+								saved = true
+							}
+						}
+					}
+					return true
+				})
+				if saved {
+					return "a value saved from the flag"
+				}
+			}
+		}
+		return "another value (" + L.Src(w.Rhs) + ")"
 	}
 	nFaulty := 0
 	for _, w := range L.FieldWrites(func(v *types.Var) bool { return isField(v, "ast", "Ast", "Faulty") }) {
 		q := L.QName(w.Fn.Obj)
 		want, ok := faultyWriters[q]
 		nFaulty++
-		r2.Decide(ok && w.Rhs != nil && L.Src(w.Rhs) == want, q+"|Faulty write", w.Node.Pos(), "Faulty = "+want, "Ast.Faulty written outside its writer table or with an unexpected value ("+L.Src(w.Node)+"): the flag no longer means 'an error-level diagnostic was delivered'")
+		got := valueKind(w)
+		r2.Decide(ok && got == want, q+"|Faulty write", w.Node.Pos(), "Faulty = "+want, "Ast.Faulty written outside its writer table or with an unexpected value ("+got+"): the flag no longer means 'an error-level diagnostic was delivered'")
 	}
 	if nFaulty < 6 {
 		r2.Und("ast.Ast.Faulty", token.NoPos, "fewer Faulty writers than expected found")
@@ -990,4 +1044,86 @@ func checkC07RangeAfterRewind(c *Check, r *Rule) {
 			}
 		}
 	})
+}
+
+// R7.9: a parse with captured diagnostics (expressionOrErr swaps the handler for a closure that keeps the error) leaves the
+// parser in panic mode although nothing was delivered. On every path from such a call to the next call that can deliver a
+// diagnostic (effect summaries, engine E3), and to every exit, panic mode is reset (must-dataflow on go/cfg). Otherwise
+// the captured error's re-delivery and every resolver/type-checker diagnostic of the statement are suppressed and the
+// module is not marked faulty.
+func checkCapturedDiagnostics(c *Check) {
+	L := c.L
+	r := c.Rule("R7.9", "after a parse with captured diagnostics panic mode is reset before anything can be reported", 1)
+	pp := L.ByRel["src/parser"]
+	info := pp.TypesInfo
+	capt := L.Fn("src/parser.(*parser).expressionOrErr")
+	if capt == nil {
+		r.Und("parser.(*parser).expressionOrErr", token.NoPos, "function not found")
+		return
+	}
+	E := NewEffects(L)
+	sites := L.CallSites(capt.Obj)
+	if len(sites) == 0 {
+		r.Und("parser.(*parser).expressionOrErr|callers", token.NoPos, "no caller found")
+		return
+	}
+	seen := map[*FuncInfo]bool{}
+	for _, cs := range sites {
+		fi := cs.Fn
+		if seen[fi] {
+			continue
+		}
+		seen[fi] = true
+		g := L.CFG(fi)
+		isReset := func(n ast.Node) bool {
+			as, ok := n.(*ast.AssignStmt)
+			if !ok || len(as.Lhs) != len(as.Rhs) {
+				return false
+			}
+			for i, l := range as.Lhs {
+				if v := fieldOf(info, l); v != nil && nameIs(v, "panicMode") {
+					if tv := info.Types[as.Rhs[i]]; tv.Value != nil && tv.Value.String() == "false" {
+						return true
+					}
+				}
+			}
+			return false
+		}
+		mf := &mustFlow{G: g, Init: 1, Transfer: func(n ast.Node, s uint32) uint32 {
+			callsIn(n, func(call *ast.CallExpr) {
+				if Callee(info, call) == capt.Obj {
+					s &^= 1
+				}
+			})
+			if isReset(n) {
+				s |= 1
+			}
+			return s
+		}}
+		mf.Run()
+		var bad []string
+		for _, b := range g.Blocks {
+			if !b.Live {
+				continue
+			}
+			for i, n := range b.Nodes {
+				st := mf.StateAt(b, i)
+				// state before the node, updated call by call inside it
+				callsIn(n, func(call *ast.CallExpr) {
+					fn := Callee(info, call)
+					if fn == capt.Obj {
+						st &^= 1
+						return
+					}
+					if eff, _ := E.CallEffects(info, call); eff&effHandler != 0 && st&1 == 0 {
+						bad = append(bad, L.Pos(call.Pos())+": "+L.Src(call.Fun)+" can report a diagnostic while the parser is still in the panic mode left by the captured parse")
+					}
+				})
+			}
+			if len(b.Succs) == 0 && mf.StateAt(b, len(b.Nodes))&1 == 0 {
+				bad = append(bad, L.Pos(posOf(b))+": the function is left in the panic mode of the captured parse")
+			}
+		}
+		r.Decide(len(bad) == 0, L.QName(fi.Obj)+"|panic mode reset after expressionOrErr", cs.Call.Pos(), "reset on every path before the next reporting call and before every exit", strings.Join(firstN(uniq(bad), 3), "; ")+": the captured error's re-delivery and the resolver's and type checker's diagnostics for this statement are suppressed; nothing is reported, the module is not marked faulty and an ill-formed program is compiled")
+	}
 }
